@@ -664,6 +664,15 @@ def aspect(spec):
     return e[0] / e[-1]
 
 
+def scene_aspect(*specs):
+    """largest / smallest non-zero principal extent over all shapes of a scene (a 40 long box next to a cone of
+    diameter 0.08 has scene aspect 500 although each shape alone is moderate)"""
+    e = [x for sp in specs for x in extents(sp) if x > 0]
+    if len(e) < 2:
+        return 1.0
+    return max(e) / min(e)
+
+
 def aspect_bucket(a):
     if a < 10:
         return "<10"
